@@ -130,6 +130,143 @@ theorem encode_error_safe (fs : FS) (mf : Path) (old : Bytes) (hold : fs.get mf 
 example : errorState [("a.torrent", [1, 2, 3])] (Impl.editOps "a.torrent" none)
     (Impl.editFinally "a.torrent") 1 0 = some [("a.torrent", [1, 2, 3])] := by decide
 
+/-- Crash safety when a `<metafile>.part` may be lying around (left by an edit that died).
+    `Impl.editOpsFrom` removes such a leftover right after the load.  For every filesystem —
+    with or without a leftover, whatever it holds — and every crash point and prefix length,
+    the metafile path holds exactly `old` or exactly `new`, and no path other than the metafile
+    and the `.part` file is touched.  With a leftover the crash points are shifted by one
+    (0..4 old, from 5 on new). -/
+theorem edit_crash_safe_leftover (fs : FS) (mf : Path) (old new : Bytes)
+    (hold : fs.get mf = some old) (c k : Nat) :
+    ∃ s, crashState fs (Impl.editOpsFrom fs mf (some new)) c k = some s ∧
+      (s.get mf = some old ∨ s.get mf = some new) ∧
+      (c ≤ 3 → s.get mf = some old) ∧
+      (5 ≤ c → s.get mf = some new) ∧
+      (∀ q, q ≠ mf → q ≠ Impl.partPath mf → s.get q = fs.get q) := by
+  have hne : mf ≠ Impl.partPath mf := Ne.symm (partPath_ne mf)
+  by_cases hp : fs.has (Impl.partPath mf) = true
+  · have hold' : (fs.del (Impl.partPath mf)).get mf = some old := by
+      rw [FS.get_del_other _ _ _ hne]; exact hold
+    match c with
+    | 0 =>
+      refine ⟨fs, ?_, Or.inl hold, fun _ => hold, fun h => by omega, fun _ _ _ => rfl⟩
+      simp [crashState, run, interrupted, editOpsFrom_leftover fs mf _ hp]
+    | 1 =>
+      refine ⟨fs, ?_, Or.inl hold, fun _ => hold, fun h => by omega, fun _ _ _ => rfl⟩
+      have hhas : fs.has mf = true := by simp [FS.has, hold]
+      simp [crashState, run, applyOp, interrupted, editOpsFrom_leftover fs mf _ hp, hhas]
+    | c + 2 =>
+      obtain ⟨s, hs, h1, h2, h3, h4⟩ :=
+        edit_crash_safe (fs.del (Impl.partPath mf)) mf old new hold' (c + 1) k
+      refine ⟨s, by rw [crash_leftover_shift fs mf old _ hold hp]; exact hs, h1,
+        fun h => h2 (by omega), fun h => h3 (by omega), fun q hq1 hq2 => ?_⟩
+      rw [h4 q hq1 hq2, FS.get_del_other _ _ _ hq2]
+  · have hn : fs.get (Impl.partPath mf) = none := (FS.has_eq_false_iff _ _).mp (by simpa using hp)
+    rw [editOpsFrom_eq fs mf _ hn]
+    obtain ⟨s, hs, h1, h2, h3, h4⟩ := edit_crash_safe fs mf old new hold c k
+    exact ⟨s, hs, h1, h2, fun h => h3 (by omega), h4⟩
+
+/-- a leftover `.part` from an earlier crash; this edit dies inside its own write after 1 byte:
+    the metafile is still the complete old one -/
+example : (crashState [("a.torrent", [1, 2, 3]), ("a.torrent.part", [7, 7, 7, 7, 7])]
+    (Impl.editOpsFrom [("a.torrent", [1, 2, 3]), ("a.torrent.part", [7, 7, 7, 7, 7])]
+      "a.torrent" (some [5, 6, 7, 8])) 3 1)
+    = some [("a.torrent", [1, 2, 3]), ("a.torrent.part", [5])] := by decide
+
+/-- Error safety with a possible leftover (`Impl.editError`: the load is outside the `try`, so
+    an error there skips the `finally` clause): whichever single operation raises (the load, the
+    removal of the leftover, the open, the write after any prefix, the replace), afterwards
+    the metafile holds the complete `old` file; when nothing raises (`i ≥ 5`
+    covers both cases) it holds the complete `new` one.  No other path except `.part` is touched. -/
+theorem edit_error_safe_leftover (fs : FS) (mf : Path) (old new : Bytes)
+    (hold : fs.get mf = some old) (i k : Nat) :
+    ∃ s, Impl.editError fs mf (some new) i k = some s ∧
+      (s.get mf = some old ∨ s.get mf = some new) ∧
+      (i ≤ 3 → s.get mf = some old) ∧
+      (5 ≤ i → s.get mf = some new) ∧
+      (∀ q, q ≠ mf → q ≠ Impl.partPath mf → s.get q = fs.get q) := by
+  have hne : mf ≠ Impl.partPath mf := Ne.symm (partPath_ne mf)
+  by_cases hp : fs.has (Impl.partPath mf) = true
+  · have hold' : (fs.del (Impl.partPath mf)).get mf = some old := by
+      rw [FS.get_del_other _ _ _ hne]; exact hold
+    have hhas : fs.has mf = true := by simp [FS.has, hold]
+    match i with
+    | 0 =>
+      refine ⟨fs, ?_, Or.inl hold, fun _ => hold, fun h => by omega, fun _ _ _ => rfl⟩
+      simp [Impl.editError, crashState, run, interrupted, editOpsFrom_leftover fs mf _ hp]
+    | 1 =>
+      refine ⟨fs.del (Impl.partPath mf), ?_, Or.inl hold', fun _ => hold', fun h => by omega,
+        fun q _ hq2 => FS.get_del_other _ _ _ hq2⟩
+      simp [Impl.editError, errorState, crashState, run, applyOp, interrupted,
+        editOpsFrom_leftover fs mf _ hp, Impl.editFinally, hp, hhas]
+    | i + 2 =>
+      obtain ⟨s, hs, h1, h2, _, h4⟩ :=
+        edit_error_safe (fs.del (Impl.partPath mf)) mf old new hold' (i + 1) k
+      have hor : s.get mf = some old ∨ s.get mf = some new := by
+        by_cases hi : i + 1 ≤ 3
+        · exact Or.inl (h1 hi)
+        · exact Or.inr (h2 (by omega))
+      refine ⟨s, by
+          unfold Impl.editError
+          rw [if_neg (by omega), error_leftover_shift fs mf old _ _ hold hp]; exact hs, hor,
+        fun h => h1 (by omega), fun h => h2 (by omega), fun q hq1 hq2 => ?_⟩
+      rw [h4 q hq1 hq2, FS.get_del_other _ _ _ hq2]
+  · have hn : fs.get (Impl.partPath mf) = none := (FS.has_eq_false_iff _ _).mp (by simpa using hp)
+    unfold Impl.editError
+    rw [editOpsFrom_eq fs mf _ hn]
+    by_cases hi0 : i = 0
+    · subst hi0
+      refine ⟨fs, ?_, Or.inl hold, fun _ => hold, fun h => by omega, fun _ _ _ => rfl⟩
+      simp [crashState, run, interrupted, Impl.editOps]
+    · rw [if_neg hi0]
+      obtain ⟨s, hs, h1, h2, _, h4⟩ := edit_error_safe fs mf old new hold i k
+      have hor : s.get mf = some old ∨ s.get mf = some new := by
+        by_cases hi : i ≤ 3
+        · exact Or.inl (h1 hi)
+        · exact Or.inr (h2 (by omega))
+      exact ⟨s, hs, hor, h1, fun h => h2 (by omega), h4⟩
+
+/-- leftover present, the replace raises: old metafile intact, no `.part` left -/
+example : Impl.editError [("a.torrent", [1, 2, 3]), ("a.torrent.part", [7, 7])] "a.torrent"
+    (some [5, 6, 7, 8]) 4 0 = some [("a.torrent", [1, 2, 3])] := by decide
+
+/-- Encoding error with a possible leftover.  If the load itself raises nothing is touched
+    (not even the leftover).  Otherwise the leftover is removed — before the encoder runs, or by
+    the `finally` clause if the removal raised — so when the encoder (or the removal) raises the
+    resulting filesystem is exactly the old one without `<metafile>.part`: the metafile and
+    every other path are as before. -/
+theorem encode_error_safe_leftover (fs : FS) (mf : Path) (old : Bytes)
+    (hold : fs.get mf = some old) (i k : Nat) :
+    (i = 0 → Impl.editError fs mf none i k = some fs) ∧
+    (1 ≤ i → Impl.editError fs mf none i k = some (fs.del (Impl.partPath mf))) ∧
+    (fs.del (Impl.partPath mf)).get mf = some old := by
+  have hne : mf ≠ Impl.partPath mf := Ne.symm (partPath_ne mf)
+  refine ⟨?_, ?_, by rw [FS.get_del_other _ _ _ hne]; exact hold⟩
+  · intro h; subst h
+    simp [Impl.editError, crashState, run, interrupted, Impl.editOpsFrom]
+  intro hi
+  have hi0 : i ≠ 0 := by omega
+  unfold Impl.editError
+  rw [if_neg hi0]
+  have hhas : fs.has mf = true := by simp [FS.has, hold]
+  by_cases hp : fs.has (Impl.partPath mf) = true
+  · have hdel : (fs.del (Impl.partPath mf)).has (Impl.partPath mf) = false := by
+      simp [FS.has, FS.get_del_same]
+    match i, hi with
+    | 1, _ =>
+      simp [errorState, crashState, run, applyOp, interrupted, editOpsFrom_leftover fs mf _ hp,
+        Impl.editFinally, hp, hhas]
+    | i + 2, _ =>
+      simp [errorState, crashState, run, applyOp, interrupted, editOpsFrom_leftover fs mf _ hp,
+        Impl.editFinally, hp, hhas, hdel, Impl.editOps]
+  · have hn : fs.get (Impl.partPath mf) = none := (FS.has_eq_false_iff _ _).mp (by simpa using hp)
+    rw [editOpsFrom_eq fs mf _ hn, FS.del_of_get_none _ _ hn]
+    obtain ⟨_, s, hs, _, h2⟩ := encode_error_safe fs mf old hold i k
+    rw [hs, h2 hn]
+
+example : Impl.editError [("a.torrent", [1, 2, 3]), ("a.torrent.part", [7, 7]), ("x", [9])]
+    "a.torrent" none 9 0 = some [("a.torrent", [1, 2, 3]), ("x", [9])] := by decide
+
 /-- Why the fix was needed: with the order of operations before the fix
     (`os.remove(metafile)` first, then `open(metafile,'wb')` and the write) there are crash
     points at which the metafile is missing (after the remove), empty (after the open) or
